@@ -303,3 +303,30 @@ def r11c(fb, rep):
             rep.violation(R, "close-data-index|%s" % ("no-position" if not pos else "no-offset"),
                           "a CloseData built in Compiler::compile_ does not address `stack_start + <member position>` (position=%s, sum=%s) while its sibling does: "
                           "the member's fields are written into another member's cell" % (pos, add), "%s:%s" % (b.file, ln))
+
+
+def r11d(fb, rep):
+    """R11d — the identifier-replacement map of the core translator stays closed under composition.
+
+    `FixupMatches` rewrites `match x with | y -> e` into `e[y := x]` by recording y -> x in `ident_replacements` and dropping the
+    match.  If x was itself the bound variable of an eliminated match (x -> w is already recorded) the new entry must point at
+    w: x is no longer bound anywhere.  Rule: the target the rewrite inserts for a *scrutinee identifier* has been looked up in
+    the same map first (normalise before insert)."""
+    R = "R11d"
+    rep.rule(R, "FixupMatches inserts replacement targets that are normalised through the map")
+    bs = [b for b in fb.bodies.values() if b.crate.name == "gluon_vm" and "FixupMatches" in b.id and b.id.endswith("::visit_expr")]
+    if len(bs) != 1:
+        rep.anchor_lost(R, "FixupMatches::visit_expr")
+        return
+    b = bs[0]
+    ins = [c for c in b.calls() if "HashMap" in c.res and c.res.rsplit("::", 1)[1] == "insert"]
+    if not ins:
+        rep.anchor_lost(R, "insert into ident_replacements in FixupMatches::visit_expr")
+        return
+    for c in ins:
+        srcs = flow.sources(b, c.args[2], depth=12) if len(c.args) > 2 else set()
+        if flow.has_call(srcs, lambda n: "HashMap" in n and n.rsplit("::", 1)[1] in ("get", "get_mut", "remove", "entry")):
+            rep.ok(R, "FixupMatches: replacement target looked up in the map before it is inserted (%s)" % c.where())
+        else:
+            rep.violation(R, "replacement-not-normalised", "FixupMatches records `y -> x` with the scrutinee's raw name: when x is itself a replaced variable (its match was "
+                          "eliminated) later uses of y name an unbound variable (ice: Undefined variable)", c.where())
